@@ -57,6 +57,8 @@ func (p *Core) Exec(w *sim.World, op sim.Op) {
 		p.execClose(op)
 	case "closec":
 		p.execCloseConfirm(op)
+	case "conf":
+		p.execOpenConfirm(op)
 	case "restart":
 		if op.C < 0 || op.C >= len(p.C) || len(p.C[op.C].Mempool) > 0 {
 			w.Noop()
@@ -359,6 +361,36 @@ func (p *Core) execCloseConfirm(op sim.Op) {
 	p.block(on.Idx)
 }
 
+// execOpenConfirm relays the last handshake step of a half-open route (v1h, v1ho) to end 1.
+func (p *Core) execOpenConfirm(op sim.Op) {
+	r := p.route(op.P)
+	if r == nil || r.V2 || r.Local || r.AckedAt == 0 {
+		p.w.Noop()
+		return
+	}
+	on, of := r.Chain[1], r.Chain[0]
+	if op.M < 3 || op.M > of.Height || op.M-1 < of.MinVersion {
+		p.w.Noop()
+		return
+	}
+	signer := on.FreeAccount(8, len(on.Accounts))
+	if signer == nil {
+		p.block(on.Idx)
+		signer = on.Relayer()
+	}
+	var msgs []sdk.Msg
+	if !on.HasConsensusState(r.Client[1], of.IBCHeight(op.M)) {
+		if u, err := sim.MsgUpdateTo(on, r.Client[1], of, op.M, signer.String()); err == nil {
+			msgs = append(msgs, u)
+		}
+	}
+	proof, ph := of.IBCProof(host.ChannelKey(r.Port[0], r.ID[0]), op.M)
+	msgs = append(msgs, channeltypes.NewMsgChannelOpenConfirm(r.Port[1], r.ID[1], proof, ph, signer.String()))
+	on.Submit(&sim.TxSpec{Msgs: msgs, Signer: signer, Label: "conf", Tag: -int64(op.P) - 1})
+	p.tick(time.Second)
+	p.block(on.Idx)
+}
+
 // execWriteAck lets the destination application write the acknowledgement of a packet it
 // received asynchronously (or try to: repeated, premature, never-received).
 func (p *Core) execWriteAck(op sim.Op) {
@@ -576,6 +608,12 @@ func (p *Core) applyTx(ci int, r *sim.TxResult) {
 			p.markClosed(ci, m.PortId, m.ChannelId, r.Height)
 		}
 		w.Stats.Probe("channel_closed_by_handshake")
+	case "conf":
+		if rt := p.route(int(-r.Spec.Tag - 1)); rt != nil && r.OK() && rt.Half {
+			rt.Half = false
+			w.Stats.Probe("channel_confirmed_after_packets_were_sent")
+		}
+		return
 	case "xfer":
 		p.applyXfer(ci, r)
 	case "donate":
@@ -606,6 +644,9 @@ func (p *Core) applyTx(ci int, r *sim.TxResult) {
 		}
 		out := txOutcome(r, ps.V2)
 		w.Stats.Probe(r.Spec.Label + "_" + out)
+		if out != "success" && r.Spec.Label == "recv" && p.Routes[ps.Route].Half && ps.Dir == 0 {
+			w.Stats.Probe("receive_refused_on_tryopen_channel")
+		}
 		if out != "success" {
 			if out == "failed" {
 				p.lastRefusal[ps.Tag] = fmt.Sprintf("%s-refused-%s/%d", r.Spec.Label, r.Space, r.Code)
